@@ -30,7 +30,7 @@ where
 
     fn add_all(&mut self, individuals: Vec<Self::Individual>) -> bool {
         #[allow(clippy::unnecessary_fold)]
-        individuals.into_iter().fold(false, |acc, individual| acc || self.add(individual))
+        individuals.into_iter().fold(false, |acc, individual| self.add(individual) || acc)
     }
 
     fn add(&mut self, individual: Self::Individual) -> bool {
